@@ -1,10 +1,8 @@
-// ===== prelude/tako_core.rs — environment of the tako server reactor (trusted; N2, N12, N13) =====
+// ===== prelude/tako_core.rs — StableMap stand-in shared by the tako server and worker units (trusted; N2, N12) =====
 
 // ---- StableMap<K, V> (internal/common/stablemap.rs): a key->value map whose values know their key.
 // Stand-in: abstract map with the same method names; `insert` panics on a duplicate key (as the real one).
 trait ExtractKey<K> { spec fn spec_key(&self) -> K; }
-impl ExtractKey<TaskId> for Task { spec fn spec_key(&self) -> TaskId { self.id } }
-//@ expect file=crates/tako/src/internal/server/task.rs text="impl ExtractKey<TaskId> for Task { #[inline] fn extract_key(&self) -> TaskId { self.id } }"
 
 #[verifier::external_body]
 #[verifier::reject_recursive_types(K)]
@@ -30,6 +28,11 @@ impl<V: ExtractKey<TaskId>> StableMap<TaskId, V> {
     fn insert(&mut self, v: V)
         requires !old(self)@.contains_key(v.spec_key())
         ensures final(self)@ == old(self)@.insert(v.spec_key(), v)
+    { unimplemented!() }
+    // diverge-mode twin (N14): the duplicate-key assert of the real insert aborts the handler
+    #[verifier::external_body]
+    fn insert__pc(&mut self, v: V)
+        ensures !old(self)@.contains_key(v.spec_key()), final(self)@ == old(self)@.insert(v.spec_key(), v)
     { unimplemented!() }
     #[verifier::external_body]
     fn remove(&mut self, k: &TaskId) -> (r: Option<V>)
